@@ -76,7 +76,10 @@ def durDump : Option WDur → String
 
 def specDump (s : SupSpec) : String :=
   s!"st={Strategy.num s.strategy};mr={s.maxRetries};to={durDump s.timeout};dirs=" ++ ",".intercalate (showRules s.directives) ++
-    ";any=" ++ (match s.anyError with | some d => toString (Directive.num d) | none => "-")
+    ";any=" ++ (match s.anyError with | some d => toString (Directive.num d) | none => "-") ++
+    ";bo=" ++ (match s.backoff with
+      | some (i, m, r) => durDump (some i) ++ "/" ++ durDump (some m) ++ "/" ++ durDump (some r)
+      | none => "-")
 
 def reDump : Option Reentrancy → String
   | some r => s!"{Mode.num r.mode}:{r.maxInFlight}"
@@ -146,7 +149,8 @@ def applyKV (c : SpawnCfg) (k v : String) : Option SpawnCfg :=
   | _ => none
 
 def fieldsLine : String :=
-  "SupervisorSpec(strategy#1,max_retries#2,timeout#3,directives#4,any_error_directive#5) " ++
+  "SupervisorSpec(strategy#1,max_retries#2,timeout#3,directives#4,any_error_directive#5,backoff_initial_delay#6," ++
+  "backoff_max_delay#7,backoff_reset_after#8) " ++
   "SupervisorDirectiveRule(error_type#1,directive#2) ReentrancyConfig(mode#1,max_in_flight#2) " ++
   "Actor(address#1,type#2,singleton#3,relocatable#4,passivation_strategy#5,dependencies#6,enable_stash#7,role#8,supervisor#9," ++
   "reentrancy#10,init_timeout#11,incarnation_id#12,reliable_delivery#13,reliable_companion#14)"
